@@ -1,7 +1,7 @@
 //@ assume: siphash_block is an uninterpreted function of (keys, nonce) -- SipHash-2-4 itself is outside; CuckooParams keeps its real fields; Proof is reduced to its nonce vector; global::proofsize() is an uninterpreted constant in 1..=2^20
 //@ assume: T6 rewrites: `vec![x; n]` => helper vec_filled (n copies of x); every `Err(Error::Verification("<message>".to_owned()))` => `Err(Error::<Kind>)`, one abstract kind per message, so that the contract can say WHY the input checks fail; integer literal types made explicit; `for n in 0..size` loops get spliced invariants
 //@ assume: termination of the two cycle-following loops is NOT proved: exec_allows_no_decreases_clause (it follows from the circular lists, which is proved, and from the walk being injective)
-//@ assume: decided here, for ANY proof size and any siphash outputs (no bound): CuckaroozContext::verify never indexes out of range, and it returns Ok ONLY IF the 2*size edge endpoints form one simple cycle through all `size` edges: starting from endpoint 0 and repeatedly moving to the UNIQUE other endpoint carrying the same node and then to the other end of that edge, the walk comes back to endpoint 0 for the first time after exactly `size` steps, every node met on the way has exactly two endpoints (no branch is skipped), and all visited endpoints are distinct. The three input checks are exact: the wrong-length / edge-too-big / not-ascending errors are returned only for that reason. (The rest of the converse -- every simple cycle is accepted -- is not decided.)
+//@ assume: decided here, for ANY proof size and any siphash outputs (no bound): CuckaroozContext::verify never indexes out of range, and it returns Ok ONLY IF the 2*size edge endpoints form one simple cycle through all `size` edges: starting from endpoint 0 and repeatedly moving to the UNIQUE other endpoint carrying the same node and then to the other end of that edge, the walk comes back to endpoint 0 for the first time after exactly `size` steps, every node met on the way has exactly two endpoints (no branch is skipped), and all visited endpoints are distinct. Every error except the xor pre-check carries its reason: wrong-length / edge-too-big / not-ascending are returned only for that reason; 'branch' only if three distinct endpoints share a node; 'dead end' only if some endpoint has no partner; 'too short' only if the walk from endpoint 0 closes after m != size steps -- each of which is incompatible with the endpoints forming one simple cycle through all edges. (Not decided: that the xor pre-check 'endpoints don't match up' never fires on a simple cycle -- the pairing argument over xor -- so completeness is decided up to that check.)
 //@ assume: 64-bit target
 //@ assume: assumed: u64::leading_zeros(x) >= 1 for x < 2^63 (std intrinsic; only used to show `1 + mask` cannot overflow)
 //@ assumed_items: 5
@@ -160,10 +160,16 @@ proof fn lemma_inner_step(uvs: Seq<u64>, mask: u64, i: int, k: int, j: int, wrap
     ensures k2 == i ==> uniq(uvs, i, j),
             k2 != i && uvs[k2] != uvs[i] ==> minv(uvs, mask, i, k2, j, wrapped || k2 >= k),
             k2 != i && uvs[k2] == uvs[i] && j == i ==> minv(uvs, mask, i, k2, k2, wrapped || k2 >= k),
+            k2 != i ==> !exam(uvs, mask, i, k, wrapped, k2),
 {
     let b = bk(uvs[i], mask);
     let w2 = wrapped || k2 >= k;
     assert(bk(uvs[k], mask) == b);
+    if k2 != i {
+        // k2 is the cyclic predecessor of k: it has not been compared yet
+        if k2 < k { if wrapped && k2 < i { assert(bk(uvs[i], mask) != b); } }
+        else { if wrapped { assert(bk(uvs[i], mask) != b); } if k2 < i { assert(bk(uvs[i], mask) != b); } }
+    }
     // the examined set grows by exactly k2 (when k2 != i); when k2 == i everything but i has been examined
     if k2 == i {
         assert forall|e: int| 0 <= e < uvs.len() && e != i && uvs[e] == uvs[i] implies exam(uvs, mask, i, k, wrapped, e) by {
@@ -256,6 +262,12 @@ pub open spec fn simple_cycle(uvs: Seq<u64>, size: int) -> bool {
         && #[trigger] uniq(uvs, path.last(), js.last()) && js.last() != path.last() && xor1(js.last()) == 0
 }
 
+/// three distinct endpoints at one node: a branch
+pub open spec fn three_at_node(uvs: Seq<u64>, a: int, b: int, c: int) -> bool {
+    0 <= a < uvs.len() && 0 <= b < uvs.len() && 0 <= c < uvs.len() && a != b && a != c && b != c && uvs[a] == uvs[b] && uvs[a] == uvs[c]
+}
+/// endpoint a has no partner
+pub open spec fn dead_end(uvs: Seq<u64>, a: int) -> bool { 0 <= a < uvs.len() && uniq(uvs, a, a) }
 /// the endpoint values the verifier derives from the proof's nonces
 pub open spec fn ep(p: CuckooParams, nonces: Seq<u64>, e: int) -> u64 {
     let edge = sp_siphash(p.siphash_keys, nonces[e / 2]);
@@ -314,11 +326,12 @@ impl CuckaroozContext {
 //@+    let ghost mut path: Seq<int> = seq![0int];
 //@+    let ghost mut js: Seq<int> = Seq::empty();
 //@+    let ghost mut jlast: int = 0;
+//@+    proof { assert(uvs@ =~= endpoints(self.params, proof.nonces@)); }
 //@   loop 3:
 //@+    invariant_except_break
 //@+        size == proof.nonces@.len(), filled(uvs@, self.params, proof.nonces@, 2 * size), uvs@.len() == 2 * size,
 //@+        nn == 2 * size, 1 <= size <= 0x10_0000, mixed_ok(uvs@, mask, head@, prev@, nn, nn),
-//@+        walk_ok(uvs@, path, js), path.len() == n + 1, path.last() == i,
+//@+        walk_ok(uvs@, path, js), path.len() == n + 1, path.last() == i, uvs@ == endpoints(self.params, proof.nonces@),
 //@+    ensures
 //@+        walk_ok(uvs@, path, js), path.len() == n, uniq(uvs@, path.last(), jlast), jlast != path.last(), xor1(jlast) == 0,
 //@   after `j = i;`:
@@ -328,19 +341,31 @@ impl CuckaroozContext {
 //@+    invariant_except_break
 //@+        size == proof.nonces@.len(), filled(uvs@, self.params, proof.nonces@, 2 * size), uvs@.len() == 2 * size,
 //@+        nn == 2 * size, 1 <= size <= 0x10_0000, mixed_ok(uvs@, mask, head@, prev@, nn, nn), i < nn,
-//@+        minv(uvs@, mask, i as int, k as int, j as int, wrapped),
+//@+        minv(uvs@, mask, i as int, k as int, j as int, wrapped), uvs@ == endpoints(self.params, proof.nonces@),
 //@+    ensures
 //@+        uniq(uvs@, i as int, j as int), j < nn,
 //@   before `k = prev[k];`:
 //@+    let ghost k0 = k;
 //@   after `k = prev[k];`:
-//@+    proof { lemma_inner_step(uvs@, mask, i as int, k0 as int, j as int, wrapped, k as int); if k != i { wrapped = wrapped || k >= k0; } }
+//@+    proof { lemma_inner_step(uvs@, mask, i as int, k0 as int, j as int, wrapped, k as int); if k != i { if j != i { assert(exam(uvs@, mask, i as int, k0 as int, wrapped, j as int)); assert(j != k); assert(uvs@[j as int] == uvs@[i as int]); }
+//@+                wrapped = wrapped || k >= k0; } }
+//@   before `return Err(Error::Branch);`:
+//@+    proof { assert(three_at_node(uvs@, i as int, j as int, k as int)); }
+//@   before `return Err(Error::DeadEnd);`:
+//@+    proof { assert(dead_end(uvs@, i as int)); }
 //@   before `i = j ^ 1;`:
 //@+    proof { lemma_xor1(j); jlast = j as int;
 //@+            if xor1(j as int) != 0 { lemma_walk_extend(uvs@, path, js, j as int); path = path.push(xor1(j as int)); js = js.push(j as int); } }
 //@   before `if n == self.params.proof_size {`:
 //@+    proof {
 //@+        assert(uvs@ =~= endpoints(self.params, proof.nonces@));
+//@+        if n != self.params.proof_size {
+//@+            let jsf = js.push(jlast);
+//@+            assert(jsf.drop_last() =~= js);
+//@+            assert(walk_ok(uvs@, path, jsf.drop_last()) && path.len() == n && jsf.len() == n
+//@+                && uniq(uvs@, path.last(), jsf.last()) && jsf.last() != path.last() && xor1(jsf.last()) == 0);
+//@+            assert(simple_cycle(uvs@, n as int));
+//@+        }
 //@+        if n == self.params.proof_size {
 //@+            let jsf = js.push(jlast);
 //@+            assert(jsf.drop_last() =~= js);
@@ -354,6 +379,9 @@ impl CuckaroozContext {
 //@+    r matches Err(Error::WrongLen) ==> proof.nonces@.len() != sp_proofsize(),
 //@+    r matches Err(Error::TooBig) ==> exists|a: int| 0 <= a < proof.nonces@.len() && #[trigger] proof.nonces@[a] > self.params.edge_mask,
 //@+    r matches Err(Error::NotAscending) ==> exists|a: int| 1 <= a < proof.nonces@.len() && proof.nonces@[a - 1] >= #[trigger] proof.nonces@[a],
+//@+    r matches Err(Error::Branch) ==> exists|a: int, b: int, c: int| #[trigger] three_at_node(endpoints(self.params, proof.nonces@), a, b, c),
+//@+    r matches Err(Error::DeadEnd) ==> exists|a: int| #[trigger] dead_end(endpoints(self.params, proof.nonces@), a),
+//@+    r matches Err(Error::TooShort) ==> exists|m: int| m != sp_proofsize() && #[trigger] simple_cycle(endpoints(self.params, proof.nonces@), m),
 //@+    r.is_ok() ==> proof.nonces@.len() == sp_proofsize()
 //@+        && (forall|a: int| 0 <= a < proof.nonces@.len() ==> #[trigger] proof.nonces@[a] <= self.params.edge_mask)
 //@+        && (forall|a: int| 1 <= a < proof.nonces@.len() ==> proof.nonces@[a - 1] < #[trigger] proof.nonces@[a])
